@@ -1,1 +1,289 @@
-//! C14 reference model (stub)
+//! Reference include-expander for C14, written from the property statement
+//! (not from the code): paths are resolved relative to the directory of the
+//! file that contains them, '.', '..' and both slash styles are normalised, a
+//! leading '/' is project-relative, nothing outside the project can be named,
+//! '<std>/' names only the built-in library, every inclusion splices unless
+//! the target says #once, cycles are errors, and the inclusion functions
+//! return exactly the requested bytes/digits, rejecting ranges past the end.
+//!
+//! Where the statement is silent the model answers `Unspecified`, and only
+//! the safety invariants on the access log apply.
+
+use crate::c14::{Case, IncKind, Item, Via};
+use std::collections::{BTreeMap, BTreeSet};
+
+#[derive(Clone, Debug, PartialEq, Eq)]
+pub enum ErrClass {
+    Outside,
+    NotFound,
+    Cycle,
+    BadRange,
+    StdNotBuiltin,
+    BadContent,
+}
+
+#[derive(Clone, Debug, PartialEq, Eq)]
+pub enum Expected {
+    /// success, output is exactly this bit string ('0'/'1')
+    Bits(String),
+    Error(ErrClass),
+    Unspecified(String),
+}
+
+#[derive(Clone, Debug, PartialEq, Eq)]
+pub enum Resolved {
+    /// canonical project-relative path
+    Path(String),
+    Builtin(String),
+    Err(ErrClass),
+    Unspecified(String),
+}
+
+/// Resolve `spelling` found in the file `container` (canonical
+/// project-relative path).
+pub fn resolve(container: &str, spelling: &str, builtins: &[&str]) -> Resolved {
+    if spelling.starts_with("<std>/") {
+        if builtins.contains(&spelling) {
+            return Resolved::Builtin(spelling.to_string());
+        }
+        return Resolved::Err(ErrClass::StdNotBuiltin);
+    }
+    let nav = spelling.replace('\\', "/");
+    if nav.is_empty() {
+        return Resolved::Unspecified("empty name".to_string());
+    }
+    if nav.contains("//") || (nav.ends_with('/') && nav.len() > 1) {
+        return Resolved::Unspecified("doubled or trailing separator".to_string());
+    }
+    let mut comps: Vec<String> = if nav.starts_with('/') {
+        Vec::new()
+    } else {
+        let mut c: Vec<String> = container.split('/').map(|s| s.to_string()).collect();
+        c.pop();
+        c
+    };
+    let mut any = false;
+    for part in nav.split('/') {
+        if part.is_empty() || part == "." {
+            continue;
+        }
+        any = true;
+        if part == ".." {
+            if comps.pop().is_none() {
+                return Resolved::Err(ErrClass::Outside);
+            }
+        } else {
+            comps.push(part.to_string());
+        }
+    }
+    if !any || comps.is_empty() {
+        return Resolved::Unspecified("names a directory or nothing".to_string());
+    }
+    let joined = comps.join("/");
+    if joined.starts_with("<std>/") {
+        // a project directory literally called `<std>` reached through a
+        // relative spelling: the statement does not say whether the prefix
+        // rule or the directory wins
+        return Resolved::Unspecified("project directory named <std>".to_string());
+    }
+    Resolved::Path(joined)
+}
+
+pub struct Model<'a> {
+    pub case: &'a Case,
+    pub builtins: Vec<&'a str>,
+    pub once_done: BTreeSet<String>,
+    pub stack: Vec<String>,
+    pub bits: String,
+    /// how often each source file is expanded (opened by an include / root)
+    pub expansions: BTreeMap<String, usize>,
+    /// every project file the expansion reads (sources and data)
+    pub touched: BTreeSet<String>,
+    pub steps: usize,
+}
+
+pub enum Stop {
+    Error(ErrClass),
+    Unspecified(String),
+}
+
+impl<'a> Model<'a> {
+    pub fn new(case: &'a Case, builtins: Vec<&'a str>) -> Model<'a> {
+        Model { case, builtins, once_done: BTreeSet::new(), stack: Vec::new(), bits: String::new(), expansions: BTreeMap::new(), touched: BTreeSet::new(), steps: 0 }
+    }
+
+    fn byte_bits(&mut self, b: u8) {
+        for i in (0..8).rev() {
+            self.bits.push(if (b >> i) & 1 == 1 { '1' } else { '0' });
+        }
+    }
+
+    pub fn expand(&mut self, path: &str) -> Result<(), Stop> {
+        self.steps += 1;
+        if self.steps > 20000 {
+            return Err(Stop::Unspecified("model step budget".to_string()));
+        }
+        let file = match self.case.files.iter().find(|f| f.path == path) {
+            Some(f) => f,
+            None => {
+                // a data file or a directory used as a source
+                if self.case.data.iter().any(|d| d.path == path) {
+                    return Err(Stop::Unspecified("data file included as source".to_string()));
+                }
+                return Err(Stop::Error(ErrClass::NotFound));
+            }
+        };
+        *self.expansions.entry(path.to_string()).or_insert(0) += 1;
+        self.touched.insert(path.to_string());
+        if file.once {
+            self.once_done.insert(path.to_string());
+        }
+        self.stack.push(path.to_string());
+        for item in &file.items {
+            match item {
+                Item::Marker(b) => self.byte_bits(*b),
+                Item::Include(sp) => match resolve(path, sp, &self.builtins) {
+                    Resolved::Err(e) => return Err(Stop::Error(e)),
+                    Resolved::Unspecified(w) => return Err(Stop::Unspecified(w)),
+                    Resolved::Builtin(_) => return Err(Stop::Unspecified("built-in library content is not modelled".to_string())),
+                    Resolved::Path(q) => {
+                        if self.once_done.contains(&q) {
+                            if self.stack.contains(&q) {
+                                return Err(Stop::Unspecified("#once file re-included while still being expanded".to_string()));
+                            }
+                            continue;
+                        }
+                        if self.stack.contains(&q) {
+                            return Err(Stop::Error(ErrClass::Cycle));
+                        }
+                        self.expand(&q)?;
+                    }
+                },
+                Item::IncFn { kind, spelling, start, len, via } => {
+                    let container = match via {
+                        Via::Direct => path.to_string(),
+                        _ => match &self.case.defs_path {
+                            Some(d) if self.expansions.contains_key(d) => d.clone(),
+                            _ => return Err(Stop::Unspecified("definitions file not included before use".to_string())),
+                        },
+                    };
+                    let q = match resolve(&container, spelling, &self.builtins) {
+                        Resolved::Err(e) => return Err(Stop::Error(e)),
+                        Resolved::Unspecified(w) => return Err(Stop::Unspecified(w)),
+                        Resolved::Builtin(_) => return Err(Stop::Unspecified("built-in library file as data".to_string())),
+                        Resolved::Path(q) => q,
+                    };
+                    let content: Vec<u8> = if let Some(d) = self.case.data.iter().find(|d| d.path == q) {
+                        d.content.clone()
+                    } else if self.case.files.iter().any(|f| f.path == q) {
+                        return Err(Stop::Unspecified("source file used as data".to_string()));
+                    } else {
+                        return Err(Stop::Error(ErrClass::NotFound));
+                    };
+                    self.touched.insert(q.clone());
+                    match kind {
+                        IncKind::Incbin => {
+                            let n = content.len();
+                            let s = start.unwrap_or(0);
+                            if n == 0 {
+                                if s > 0 || len.unwrap_or(0) > 0 {
+                                    return Err(Stop::Error(ErrClass::BadRange));
+                                }
+                                return Err(Stop::Unspecified("empty file".to_string()));
+                            }
+                            let e = match len {
+                                Some(l) => s + l,
+                                None => n,
+                            };
+                            if s > n || e > n {
+                                return Err(Stop::Error(ErrClass::BadRange));
+                            }
+                            if s == n || e == s {
+                                return Err(Stop::Unspecified("empty range".to_string()));
+                            }
+                            for b in &content[s..e] {
+                                self.byte_bits(*b);
+                            }
+                        }
+                        IncKind::Incbinstr | IncKind::Inchexstr => {
+                            let bpc = if *kind == IncKind::Incbinstr { 1 } else { 4 };
+                            let text = String::from_utf8_lossy(&content).to_string();
+                            let mut digits: Vec<u32> = Vec::new();
+                            for c in text.chars() {
+                                if c == ' ' || c == '\t' || c == '\r' || c == '\n' || c == '_' {
+                                    continue;
+                                }
+                                match c.to_digit(1 << bpc) {
+                                    Some(d) => digits.push(d),
+                                    None => return Err(Stop::Error(ErrClass::BadContent)),
+                                }
+                            }
+                            let n = digits.len();
+                            let s = start.unwrap_or(0);
+                            if n == 0 {
+                                if s > 0 || len.unwrap_or(0) > 0 {
+                                    return Err(Stop::Error(ErrClass::BadRange));
+                                }
+                                return Err(Stop::Unspecified("empty file".to_string()));
+                            }
+                            let e = match len {
+                                Some(l) => s + l,
+                                None => n,
+                            };
+                            if s > n || e > n {
+                                return Err(Stop::Error(ErrClass::BadRange));
+                            }
+                            if s == n || e == s {
+                                return Err(Stop::Unspecified("empty range".to_string()));
+                            }
+                            for d in &digits[s..e] {
+                                for i in (0..bpc).rev() {
+                                    self.bits.push(if (d >> i) & 1 == 1 { '1' } else { '0' });
+                                }
+                            }
+                        }
+                    }
+                }
+            }
+        }
+        self.stack.pop();
+        Ok(())
+    }
+}
+
+pub struct ModelResult {
+    pub expected: Expected,
+    pub expansions: BTreeMap<String, usize>,
+    pub touched: BTreeSet<String>,
+}
+
+pub fn run(case: &Case, builtins: Vec<&str>) -> ModelResult {
+    let mut m = Model::new(case, builtins);
+    let mut expected = None;
+    for root in &case.roots {
+        // a root named on the command line with a non-canonical spelling is a
+        // silent case
+        let canonical = !(root.starts_with("./") || root.contains("/../") || root.contains("//") || root.contains('\\') || root.starts_with("../") || root.starts_with('/'));
+        if !canonical {
+            expected = Some(Expected::Unspecified("non-canonical root spelling".to_string()));
+            break;
+        }
+        if m.once_done.contains(root) {
+            continue;
+        }
+        m.stack.clear();
+        match m.expand(root) {
+            Ok(()) => {}
+            Err(Stop::Error(e)) => {
+                expected = Some(Expected::Error(e));
+                break;
+            }
+            Err(Stop::Unspecified(w)) => {
+                expected = Some(Expected::Unspecified(w));
+                break;
+            }
+        }
+    }
+    let expected = expected.unwrap_or_else(|| Expected::Bits(m.bits.clone()));
+    ModelResult { expected, expansions: m.expansions, touched: m.touched }
+}
